@@ -62,7 +62,7 @@ def gen_large(tier, seed):
     """Bodies across orders of magnitude, around every size the code treats specially (the read
     buffer's 4096-byte first read, 64 KiB, frame_max 131072, the 1 MiB pre-allocation cap)."""
     rng = Rng(seed + 3300)
-    sizes = [4095, 4096, 4097, 65535, 65536, 131064, 131065, 2 ** 20 - 1, 2 ** 20, 2 ** 20 + 1]
+    sizes = [4095, 4096, 4097, 65535, 65536, 131064, 131065, 2 ** 20 - 1, 2 ** 20, 2 ** 20 + 1, 2 ** 20 + 10]
     if tier != "quick":
         sizes += [2 ** 20 + 131064, 2 ** 21 + 3, 3 * 2 ** 20]
     cases = []
@@ -77,6 +77,11 @@ def gen_large(tier, seed):
             data = bytes((j * 7 + i) % 251 for j in range(sz))
             chunk = rng.choice([131064, 131064, 65536, 100000])
             parts = [data[a:a + chunk] for a in range(0, sz, chunk)]
+            if sz > 2 ** 20 and kind == "deliver":
+                # frames are as large as the peer likes: a first frame of exactly / about the
+                # pre-allocation cap, the rest behind it
+                first_len = {2 ** 20 + 1: 2 ** 20, 2 ** 20 + 131064: 2 ** 20 - 1, 2 ** 21 + 3: 2 ** 20 + 1}.get(sz, 2 ** 20)
+                parts = [data[:first_len]] + [data[a:a + chunk] for a in range(first_len, sz, chunk)]
             first = {"deliver": mg.deliver(1, "t1", 1, False, "", "k"), "return": mg.ret(1, 312, "x", "e", "k"), "get": mg.get_ok(1, 1, False, "e", "k", 0)}[kind]
             if kind == "get":
                 g.op("send %s send %s" % (h, mg.hx(mg.amqp.client_only_samples(1)["basic.get"]))); g.op("ev 1")
@@ -92,6 +97,6 @@ def suites(tier, seed):
     return [Suite("idle-consumer-backlog", "machine", lambda: [mg.backlog_cases(Rng(seed + 31), "consumer", 70000)], monitor=monitor, nontrivial=lambda c, il: True, canon=mg.canon_nondet, shrink=False, compare=(tier != "quick"), timeout=600,
                   rule="70 000 deliveries pile up unread in one consumer's queue; a delivery and a call on another channel are then served at once, and the idle consumer finally reads all 70 000 in order followed by its terminal message (quick: judged by the monitor only; thorough: also diffed against the Lean model, whose list queues make that quadratic)"),
             Suite("large-bodies", "machine", lambda: gen_large(tier, seed), monitor=monitor, nontrivial=lambda c, il: True, canon=mg.canon_nondet, candidate_ok=mg.candidate_ok, shards=4, shrink=False,
-                  rule="one content (delivery / get answer / return) of 4095, 4096, 4097, 65535, 65536, 131064, 131065, 2^20-1, 2^20, 2^20+1 bytes (thorough: also 2^20+131064, 2^21+3, 3*2^20) cut into frames of 64-128 KiB, followed by a second small delivery: delivered once, intact, and the next message after it too"),
+                  rule="one content (delivery / get answer / return) of 4095, 4096, 4097, 65535, 65536, 131064, 131065, 2^20-1, 2^20, 2^20+1 bytes (thorough: also 2^20+131064, 2^21+3, 3*2^20) cut into frames of 64-128 KiB (bodies above 1 MiB: a first frame of exactly / about 1 MiB, then smaller ones), followed by a second small delivery: delivered once, intact, and the next message after it too"),
             Suite("sessions", "machine", lambda: gen(tier, seed), monitor=monitor, nontrivial=nontrivial, canon=mg.canon_nondet, candidate_ok=mg.candidate_ok,
                   rule="random sessions: 2-6 channels x consumers; deliveries, gets and returns with bodies 0..300 B cut into body frames by every partition style (one / two / single bytes / random / with empty frames), other channels' frames and heartbeats interleaved inside a content, frames fed directly or through the stream with random read cuts and would-block points; queues drained at the end")]
